@@ -113,7 +113,39 @@ def stub_debug_nodes(g):
 
 def stub_setup_nodes(g):
     d = g.setup.val
-    return SList(SSet.define("setup_nodes", Id, lambda q: d[q]))
+    r = SList(SSet.define("setup_nodes", Id, lambda q: d[q]))
+    r.is_all_setup = True
+    return r
+
+
+def closed_form_spec(g, N, T, X, R):
+    """C12's documented closure over the reachability of the ORIGINAL graph (node set N)"""
+    A = (lambda t: dstar(N, mem_of(R), t)) if R is not None else (lambda t: N[t])
+    DX = (lambda t: dstar(N, mem_of(X), t)) if X is not None else (lambda t: z3.BoolVal(False))
+    Bs = lambda t: z3.And(A(t), z3.Not(DX(t)))  # noqa: E731
+    res = (lambda t: z3.And(Bs(t), anc_or_self(N, mem_of(T), t))) if T is not None else Bs
+    roots_ok = z3.ForAll([x], z3.Implies(mem_of(R).mem(x), g.is_root(x, N))) if R is not None else z3.BoolVal(True)
+    targets_ok = z3.ForAll([x], z3.Implies(mem_of(T).mem(x), Bs(x))) if T is not None else z3.BoolVal(True)
+    x_in_A = z3.ForAll([x], z3.Implies(mem_of(X).mem(x), A(x))) if X is not None else z3.BoolVal(True)
+    return A, DX, Bs, res, roots_ok, targets_ok, x_in_A
+
+
+def stub_make_subgraph(g, T, X, R):
+    """summary contract of DiGraphEx.make_subgraph as proved by MakeSubgraph below"""
+    N = g.N
+    reach_theory().register(N)
+    A, DX, Bs, res, roots_ok, targets_ok, x_in_A = closed_form_spec(g, N, T, X, R)
+    if not C.fork(roots_ok, "make_subgraph: roots are roots"):
+        raise ValueError("nodes aren't root nodes")
+    if not C.fork(x_in_A, "make_subgraph: excluded nodes inside the selected part"):
+        raise NetworkXError("an excluded node is not in the graph selected by the roots")
+    if not C.fork(targets_ok, "make_subgraph: targets inside the selection"):
+        raise ValueError("The provided nodes are not in the graph.")
+    r = SDiGraphEx(name="selection", tables=dict(compound_priority=g.compound_priority.clone(), debug=g.debug.clone(), setup=g.setup.clone(), tag=g.tag.clone()))
+    r.owner = "fresh"
+    C.assume(z3.ForAll([x], r.N[x] == res(x)), r.cN <= g.cN)
+    r.selection_of = (g, T, X, R)
+    return r
 
 
 def include_debug_nodes_post(g, L0mem, L1mem):
@@ -282,15 +314,9 @@ class MakeSubgraph:
         T = fresh_list("target_nodes") if hasT else None
         X = fresh_list("exclude_nodes") if hasX else None
         R = fresh_list("root_nodes") if hasR else None
-        A = (lambda t: dstar(N, R.s, t)) if hasR else (lambda t: N[t])
-        DX = (lambda t: dstar(N, X.s, t)) if hasX else (lambda t: z3.BoolVal(False))
-        Bs = lambda t: z3.And(A(t), z3.Not(DX(t)))  # noqa: E731
-        res = lambda t: z3.And(Bs(t), anc_or_self(N, T.s, t)) if hasT else Bs(t)  # noqa: E731
-        roots_ok = z3.ForAll([x], z3.Implies(R.s.mem(x), g.is_root(x))) if hasR else z3.BoolVal(True)
-        targets_ok = z3.ForAll([x], z3.Implies(T.s.mem(x), Bs(x))) if hasT else z3.BoolVal(True)
+        A, DX, Bs, res, roots_ok, targets_ok, x_in_A = closed_form_spec(g, N, T, X, R)
         # the property's own restriction: every excluded node lies inside the part selected by R
-        if hasX:
-            C.assume(z3.ForAll([x], z3.Implies(X.s.mem(x), A(x))))
+        C.assume(x_in_A)
         name = "make_subgraph"
         try:
             r = f(g, T, X, R)
